@@ -350,3 +350,69 @@ def rule_binders(ctx):
                         f["sp"]["file"], f["sp"]["line"])
     res.require_floor(3)
     return res
+
+
+def rule_seq(ctx):
+    """R-SEQ: call-by-value sequencing in the Fun->Core translation only at non-codata types"""
+    fx = ctx.fx
+    res = RuleResult("R-SEQ", "evaluation strategy of the Fun->Core translation: handing a freshly built mu-tilde abstraction to `compile_with_cont` "
+                     "runs the compiled term first and then the abstraction's body (call by value), which is the source semantics only "
+                     "for integers and data; every such site must have the abstraction's type fixed to i64 or be dominated by the false "
+                     "branch of an `is_codata` test of that type (codata is evaluated by name: the term has to stay the producer of a cut)")
+    n = 0
+    for k, f in sorted(fx.fns.items()):
+        if f["crate"] != "fun2core" or "{promoted" in k:
+            continue
+        fn = Fn(f)
+        flow = Flow(fn)
+        guards = []     # (false-successor block, origins of the tested type)
+        for bi, t in fn.calls():
+            if t.get("callee_name") == "is_codata" and t["args"]:
+                r0 = op_root(t["args"][0])
+                torg = flow.origins(r0, ()) if r0 is not None else set()
+                res_l = t["dest"]["l"]
+                for b2, blk in enumerate(f["blocks"]):
+                    tt = blk["term"]
+                    if tt["k"] != "switch":
+                        continue
+                    d = tt.get("discr") or {}
+                    pl = d.get("pl") if isinstance(d, dict) else None
+                    if not pl:
+                        continue
+                    dorg = flow.origins(pl["l"], ())
+                    if ("call", bi, ()) in dorg or pl["l"] == res_l:
+                        for val, tg in tt.get("targets") or []:
+                            if val == 0:
+                                guards.append((tg, torg))
+        for bi, t in fn.calls():
+            if t.get("callee_name") != "compile_with_cont" or len(t["args"]) < 2:
+                continue
+            r = op_root(t["args"][1])
+            org = flow.origins(r, ()) if r is not None else set()
+            for o in [o for o in org if o[0] == "agg"]:
+                rv = flow.agg_at(o)
+                if not (rv.get("adt") or "").endswith("mu::Mu"):
+                    continue
+                flds = dict(zip(rv["fields"], rv["ops"]))
+                pc = flds.get("prdcns")
+                pr = op_root(pc) if pc else None
+                pc_org = flow.origins(pr, ()) if pr is not None else set()
+                is_tilde = any(x[0] == "agg" and (flow.agg_at(x).get("adt") or "").endswith("::Cns") for x in pc_org) or \
+                    (pr is not None and fn.local_ty(pr).endswith("Cns"))
+                if not is_tilde:
+                    continue
+                n += 1
+                ikey = "%s@compile_with_cont" % k
+                tyop = flds.get("ty")
+                tr = op_root(tyop) if tyop else None
+                ty_org = flow.origins(tr, ()) if tr is not None else set()
+                const_i64 = bool(ty_org) and all(x[0] == "agg" and flow.agg_at(x).get("variant") == "I64" for x in ty_org)
+                guarded = any(fn.dominates(g, bi) and (torg & ty_org) for g, torg in guards)
+                if const_i64 or guarded:
+                    res.inst(ikey, t["sp"]["file"], t["sp"]["line"], "ok", "type fixed to i64" if const_i64 else "on the non-codata branch of an is_codata test")
+                else:
+                    res.inst(ikey, t["sp"]["file"], t["sp"]["line"], "violation")
+                    res.violate(ikey, "%s sequences a term before a mu-tilde continuation (call by value) at a type that may be codata: a codata-typed "
+                                "binding would be evaluated eagerly and once instead of by name" % k, t["sp"]["file"], t["sp"]["line"])
+    res.require_floor(1)
+    return res
